@@ -9,7 +9,7 @@ for line in open(sys.argv[1]):
         ev[(m.group(1), m.group(2))] = (int(m.group(3)), m.group(4).strip())
 conf = {}
 for f in sys.argv[2:]:
-    wave = 'w2' if 'confirm2' in f else 'w3'
+    wave = 'w' + re.search(r'confirm(\d)', f).group(1)
     for line in open(f):
         m = re.match(r'^(C\d\d) (m\d): pkg=(\S+) run=(\S+) \| clean: (.*?) \| mutant: (.*?) \| build: (.*?) \| pkg test fails with mutant: (.*)$', line.strip())
         if m:
